@@ -49,8 +49,8 @@ CLAIMS = {
             "is written where it has no effect (defect D9 found by this contract and fixed); unit `report`: the validity definition "
             "(PassResult::is_valid / valid_output / into_result: valid exactly when there is output and no error) and the "
             "SourceReport bookkeeping (push/warn/error assertions, has_errors, has_warnings) over its representation invariant. "
-            Bounded (Kani): intermediate references to sections and steps are accepted exactly when the target "
-            "exists and resolve to it. Other analysis diagnostics and the short-circuit are not decided.", VERUS),
+            "Bounded (Kani): intermediate references to sections and steps are accepted exactly when the target "
+            "exists and resolve to it. Other analysis diagnostics and the short-circuit are not decided.", VERUS + " + " + KANI),
     "C08": ("proof", "Partial (value and component level). RecipeCollector::{value,quantity} (analysis): exactly the numeric, unlocked "
             "quantities of ingredients are marked Linear, everything else Fixed, the value kept as written. Contracts on the real linear_scale, ScalableValue::{scale,default_scale}, "
             "ScalableQuantity::{scale,default_scale} and the Scale impls of Ingredient, Cookware and Timer (names, aliases, notes, "
